@@ -187,6 +187,25 @@ func (a *Act) callWithArgs(ctx *blockCtx, c *ssa.CallCommon, args []Val, fnv Val
 		return a.inline(ctx, callee, args, resT, pos)
 	}
 	defer func() { a.bumpWMDefault(ctx) }()
+	if callee.Blocks != nil && callee.Pkg != nil && strings.HasPrefix(callee.Pkg.Pkg.Path(), "github.com/FollowTheProcess/spok") {
+		// a function of /repo without a contract that cannot be inlined: everything its body
+		// (transitively) may write is unknown afterwards
+		set := map[string]bool{}
+		sub := g.newAct(callee, a.depth+1)
+		for _, bb := range callee.Blocks {
+			for _, ins := range bb.Instrs {
+				g.instrMods(sub, ins, set, a.depth+1)
+			}
+		}
+		for _, hv := range sortedKeys(set) {
+			if s, ok := g.w.heapVars[hv]; ok {
+				ctx.st[hv] = g.fresh(hv+"_unk", s)
+			}
+		}
+		g.usedDefault[key+" (uncontracted function of /repo: its possible writes are havocked)"] = true
+		v, tup := a.resultVals(resT, "dflt_"+shortName(key))
+		return v, tup
+	}
 	g.usedDefault[key] = true
 	if debugKeys {
 		fmt.Fprintf(os.Stderr, "default-frame: %q\n", key)
